@@ -215,6 +215,12 @@ func fabricate(kind string, r *sim.Request) *sim.Fault {
 		return &sim.Fault{Code: 422, Reason: "Invalid"}
 	case "500":
 		return &sim.Fault{Code: 500, Reason: "InternalError"}
+	case "403":
+		return &sim.Fault{Code: 403, Reason: "Forbidden"}
+	case "429":
+		return &sim.Fault{Code: 429, Reason: "TooManyRequests"}
+	case "server-timeout":
+		return &sim.Fault{Code: 504, Reason: "Timeout"}
 	case "timeout":
 		return &sim.Fault{Transport: true}
 	case "lost-response":
@@ -257,7 +263,7 @@ func c12DropGone(got, want string, dev c12Dev) (string, string) {
 	return got, strings.Join(out, "\n")
 }
 
-var c12Kinds = []string{"404", "409", "410", "422", "500", "timeout", "lost-response"}
+var c12Kinds = []string{"404", "409", "410", "422", "500", "403", "429", "server-timeout", "timeout", "lost-response"}
 
 func TestVerifC12(t *testing.T) {
 	r := mc.NewReport("C12", "composite")
